@@ -133,8 +133,11 @@ LEVEL = {
     'C15': _lv('Pure lemmas on the decrypt transducers (causality, CBC / CFB propagation and re-synchronisation, keystream flip, PCBC state '
                'difference, CFB-8 register shift) over the code = spec contracts.',
                '"garbles" is proved as the exact propagated difference; that it is non-zero needs injectivity of the cipher.'),
-    'C16': _lv('CtrCore::clone copies cipher and counter state (Verus); every mutation is through &mut self / caller buffers (typing); a '
-               'mechanical scan finds no static mut / thread_local / Cell / Atomic / unsafe in the crates.',
+    'C16': _lv('Every function of the nine crates is verified against a postcondition that is a function of its arguments and the '
+               'instance\'s own state only (the code = spec clauses), so no result depends on other instances or hidden state; '
+               'CtrCore::clone copies cipher and counter state (Verus); every mutation is through &mut self / caller buffers (typing); a '
+               'mechanical scan finds no static mut / thread_local / Cell / Atomic / unsafe in the crates; new unselected items and '
+               'changed derive lists are flagged (items_baseline).',
                'derive(Clone) has no Verus spec: clone-independence harnesses (native, randomised histories) stand in -- bounded.'),
     'C17': _lv('Every Debug::fmt and write_alg_name body is read mechanically as a sequence of literal / type-name writes and verified to append '
                'exactly that self-free text (prefix of it on error); every Drop body is verified to zero each state field (zeroize cfg on).',
